@@ -41,6 +41,8 @@ def run_native(module, hname, case, inputs, decisions, timeout=60):
     signal.alarm(timeout)
     try:
         mod.HARNESSES[hname](eng, case)
+    except core.ReplayDone:
+        pass
     except _Timeout:
         return ('err', 'native replay timed out')
     except core.HarnessError as e:
